@@ -58,7 +58,11 @@ func ruleC04Store(p *Prog, a *Anchors, r *Report, rule string, onlyTypes map[str
 		case e.Target.Type == "TemplateSet":
 			r.Trivial(key, pos, "%s: set state, decided under C05/C20 (lock discipline)", e.Desc)
 		case a.PerExecTypes[e.Target.Type] || e.Target.Type == "Context":
-			r.OK(key, pos, "%s: per-execution type %s", e.Desc, e.Target.Type)
+			if g := globalRoot(nf); g != "" {
+				r.Bad(key, pos, "%s: the %s written here can be the object kept in package-level variable %s (shared by all executions): what one execution writes into it, every later one sees; origin %s (judged in %s)", e.Desc, e.Target.Type, g, rootsString(nf), where)
+			} else {
+				r.OK(key, pos, "%s: per-execution type %s", e.Desc, e.Target.Type)
+			}
 		default:
 			// container not identified by a struct type: decide by the types the roots pass through
 			bad := ""
@@ -84,6 +88,16 @@ func ruleC04Store(p *Prog, a *Anchors, r *Report, rule string, onlyTypes map[str
 	r.Extra["exec_reachable_functions"] = len(p.inPkgFuncsSorted(reach))
 	r.Extra["compiled_tree_types"] = sortedKeys(a.CompiledTypes)
 	r.Extra["per_execution_types"] = sortedKeys(a.PerExecTypes)
+}
+
+// globalRoot: name of a package-level variable among the origins, or "".
+func globalRoot(rs []Root) string {
+	for _, r := range rs {
+		if r.Kind == RGlobal {
+			return r.Name
+		}
+	}
+	return ""
 }
 
 func onlyUnknownLib(rs []Root) bool {
